@@ -1,6 +1,6 @@
 (* Props/C14.v — property C14: built-in reports state exactly the facts of the event stream (structure). *)
 From CV Require Import Model.Base Model.Events Model.Contract Model.Stats Model.StatsSpec Model.Reporters Model.ReportersSpec Proofs.BaseP Proofs.ReportersP Proofs.ReportersP2 Proofs.ReportersP3.
-From CV Require Model.ReportersSpec4 Proofs.ReportersP8.
+From CV Require Model.ReportersSpec4 Proofs.ReportersP8 Model.ReportersSpec5 Proofs.ReportersP9.
 From CV Require Model.ReportersSpec2 Proofs.ReportersP6 Model.ReportersSpec3 Proofs.ReportersP7 Model.AttemptSpec Model.Attempt.
 From CV Require Proofs.ReportersP4 Proofs.ReportersP5 Proofs.Compose Proofs.SchedP4 Proofs.SchedP7 Model.Sched.
 From Coq Require Import Lia.
@@ -391,3 +391,23 @@ Proof.
                       |exact (ReportersP8.C14_basic_doc_order_behind_normalize es C)].
 Qed.
 Print Assumptions C14_basic_headers_end_to_end.
+
+
+(* ---------- THE CONTAINERS ARE EXACTLY THOSE OF THE RUN (second review, L7) ----------
+   JSON: one feature entry per feature of which a hook result, an own-step EVENT or a background-step EVENT occurs, one scenario
+   element / background element per scenario accordingly (the writer creates the element on the step's Started: a started
+   step without result leaves an EMPTY element — ReportersP9.started_step_creates_empty_element), one path-less pseudo feature
+   per parser error; none invented, none repeated; every hook stands in a scenario element; the uri flag is the feature's.
+   JUnit: one suite per FINISHED feature, in stream order (a feature without attempts still gets its — empty — suite:
+   ReportersP9.empty_feature_suite_written), one Errors suite per parser error holding exactly that error as a failure. *)
+Theorem C14_json_containers_exact :
+  forall has_path es,
+    normalized es = true -> fids_nonzero es = true -> fids_have_path has_path es = true ->
+    ReportersSpec5.c14_json_containers_ok has_path es (json_doc has_path es) = true.
+Proof. exact ReportersP9.C14_json_containers. Qed.
+Print Assumptions C14_json_containers_exact.
+
+Theorem C14_junit_suites_exact :
+  forall es, normalized_prefix es = true -> ReportersSpec5.c14_junit_suites_ok es (junit_doc es) = true.
+Proof. exact ReportersP9.C14_junit_suites. Qed.
+Print Assumptions C14_junit_suites_exact.
